@@ -79,8 +79,9 @@ def main():
         for c in checks:
             t = time.time()
             p = sh("cd %s && ./check %s --tier quick" % (VERIF, c), timeout=3000)
-            lines = [l for l in p.stdout.split("\n") if l.startswith(("VIOLATION", "KNOWN-FINDING")) or "done: exit" in l
-                     or "broken" in l]
+            allines = p.stdout.split("\n")
+            lines = [l for l in allines if l.startswith(("VIOLATION", "KNOWN-FINDING")) or "done: exit" in l]
+            lines += [l for l in allines if "broken" in l][:4]
             out["ran"].append({"check": c, "exit": p.returncode, "wall_s": round(time.time() - t, 1),
                                "lines": [l[:300] for l in lines][:12]})
             # keep one replay file as illustration
